@@ -141,3 +141,16 @@ func TestC03(t *testing.T) {
 		assume: []string{"short-nonce ages between 60 and 61 minutes are not judged (one-minute resolution of the encoding); letter-case variants of a nonce are the same nonce; a consistent request under another realm is valid (the key is the handler's for the presented username and realm)"},
 	})
 }
+
+func TestC09(t *testing.T) {
+	runProp(t, &propSpec{
+		id: "C09",
+		profile: &Profile{
+			Name: "C09", MinSteps: 6, MaxSteps: 30, MaxClient: 3, MTU: true,
+			Weights: map[string]int{"Allocate": 6, "Refresh": 6, "CreatePermission": 8, "ChannelBind": 6, "Send": 8, "ChannelData": 4, "PeerData": 8, "Sleep": 2, "Hostile": 50, "Binding": 2},
+		},
+		nontrivial: func(st *Stats, _ *Script) bool {
+			return has(st, "hostile-passes-demultiplexing") || has(st, "hostile-in-allocated-state")
+		},
+	})
+}
